@@ -203,6 +203,7 @@ type treeOpts struct {
 	Bulk     bool // allow one boundary-size bulk node
 	NoDeep   bool
 	ASCIIMax int
+	VarPct   int // probability (percent) that a value position becomes a variable (default 20)
 }
 
 type treeGen struct {
@@ -240,6 +241,9 @@ func genTree(t *rapid.T, o treeOpts, nm *namer) *model.Node {
 	if o.ASCIIMax == 0 {
 		o.ASCIIMax = 12
 	}
+	if o.VarPct == 0 {
+		o.VarPct = 20
+	}
 	g := &treeGen{o: o, nm: nm}
 	if o.Bulk {
 		g.bulkLeft = rapid.IntRange(0, 5).Draw(t, "wantBulk") == 5
@@ -270,7 +274,7 @@ func (g *treeGen) leaf(t *rapid.T) *model.Node {
 		return &model.Node{Kind: kind, Bulk: &model.Bulk{N: n, Seed: rapid.Uint64().Draw(t, "bulkSeed")}}
 	}
 	if kind == model.A {
-		if g.o.Vars && rapid.IntRange(0, 3).Draw(t, "avar") == 3 {
+		if g.o.Vars && rapid.IntRange(1, 100).Draw(t, "avar") > 100-g.o.VarPct {
 			av := &model.AVar{Name: g.nm.draw(t), Min: 0, Max: -1}
 			switch rapid.IntRange(0, 4).Draw(t, "abounds") {
 			case 1:
@@ -291,7 +295,7 @@ func (g *treeGen) leaf(t *rapid.T) *model.Node {
 	n := rapid.IntRange(0, g.o.MaxElems).Draw(t, "nelems")
 	node := &model.Node{Kind: kind, Elems: make([]model.Elem, n)}
 	for i := range node.Elems {
-		if g.o.Vars && rapid.IntRange(0, 4).Draw(t, "isvar") == 4 {
+		if g.o.Vars && rapid.IntRange(1, 100).Draw(t, "isvar") > 100-g.o.VarPct {
 			node.Elems[i] = model.Elem{Var: g.nm.draw(t)}
 		} else {
 			node.Elems[i] = genElem(t, kind)
@@ -328,7 +332,7 @@ func (g *treeGen) node(t *rapid.T, depth, budget int) *model.Node {
 		if i == n {
 			break
 		}
-		if g.o.Vars && rapid.IntRange(0, 6).Draw(t, "itemVar") == 6 {
+		if g.o.Vars && rapid.IntRange(1, 100).Draw(t, "itemVar") > 100-g.o.VarPct*2/3 {
 			node.Children = append(node.Children, model.Child{Var: g.nm.draw(t)})
 		} else {
 			node.Children = append(node.Children, model.Child{Node: g.node(t, depth+1, per)})
